@@ -426,7 +426,7 @@ Definition is_miface (t : mty) : bool :=
   match t with MIface _ => true | _ => false end.
 
 (* per-parameter rejects; returns (is_obj_array, is_obj_value) *)
-Definition check_param (p : mparam) : outcome (bool * bool) :=
+Definition check_param_gen (small_in : bool) (p : mparam) : outcome (bool * bool) :=
   match mp_shape p with
   | PArr cnt =>
       if is_miface (mp_ty p) then
@@ -434,7 +434,7 @@ Definition check_param (p : mparam) : outcome (bool * bool) :=
       else if is_struct_or_prim (mp_ty p) then
         let obj_struct :=
           is_mstruct (mp_ty p) &&
-          (if mp_out p then true else negb (is_small (mp_ty p))) &&
+          (if mp_out p then true else small_in || negb (is_small (mp_ty p))) &&
           contains_interfaces (mp_ty p) in
         if obj_struct then Reject RObjStructArray
         else match cnt with Some _ => Reject RBoundedDataArray | None => Ok (false, false) end
@@ -442,15 +442,20 @@ Definition check_param (p : mparam) : outcome (bool * bool) :=
   | PVal => Ok (false, is_miface (mp_ty p))
   end.
 
-Fixpoint check_params (ps : list mparam) (ai vi ao vo : bool) : outcome unit :=
+Definition check_param := check_param_gen verifier_small_objstruct_in_array.
+
+(* [two]: a second object array of one direction is rejected (regenerated fact) *)
+Fixpoint check_params_gen (two small_in : bool) (ps : list mparam) (ai vi ao vo : bool) : outcome unit :=
   match ps with
   | [] => if (ai && vi) || (ao && vo) then Reject RObjArrMixed else Ok tt
   | p :: r =>
-      do x <- check_param p;
+      do x <- check_param_gen small_in p;
       let '(a, v) := x in
-      if mp_out p then check_params r ai vi (ao || a) (vo || v)
-      else check_params r (ai || a) (vi || v) ao vo
+      if two && a && (if mp_out p then ao else ai) then Reject RObjArrMixed
+      else if mp_out p then check_params_gen two small_in r ai vi (ao || a) (vo || v)
+      else check_params_gen two small_in r (ai || a) (vi || v) ao vo
   end.
+Definition check_params := check_params_gen verifier_rejects_second_objarr verifier_small_objstruct_in_array.
 
 Definition verify_iface (i : miface) : outcome unit :=
   let chain := mi_chain i in
